@@ -7,7 +7,7 @@ from functools import cached_property
 from .cfg import CFG, Node
 from .errors import AnalysisError
 from .model import FuncInfo, Program, dotted, src, walk_scope
-from .util import calls_in, is_self_attr, node_for
+from .util import calls_in, expand_forms, is_self_attr, node_for, reaching_events
 
 CAL = "black_it.calibrator:Calibrator"
 HISTORY = ["params_samp", "losses_samp", "series_samp", "batch_num_samp", "method_samp"]
@@ -196,4 +196,55 @@ class CalibrateView:
                 d = dotted(n.func)
                 if d:
                     out.add(f"call:{d}")
+        return out
+
+
+    # ------------------------------------------------------------------ forms of expressions at a statement (locals expanded)
+    def forms(self, e: ast.expr, stmt: ast.stmt) -> list[ast.expr]:
+        nodes = self.g.nodes_of(stmt)
+        if not nodes:
+            return [e]
+        return expand_forms(self.prog, self.cal, self.g, e, nodes[0])
+
+    def form_texts(self, e: "ast.expr | str", stmt: ast.stmt) -> set[str]:
+        if isinstance(e, str):
+            e = ast.parse(e, mode="eval").body
+        return {" ".join(ast.unparse(f).split()) for f in self.forms(e, stmt)}
+
+    def read_nodes(self, e: ast.expr, stmt: ast.stmt, mention: str) -> set[Node]:
+        """CFG nodes at which `self.<mention>` is actually read on behalf of `e` evaluated at `stmt`
+        (the statement itself, or the definitions of the locals `e` is built from)."""
+        out: set[Node] = set()
+        seen: set[int] = set()
+
+        def visit(expr: ast.expr, at: Node) -> None:
+            if any(isinstance(x, ast.Attribute) and x.attr == mention for x in ast.walk(expr)):
+                out.add(at)
+            for x in ast.walk(expr):
+                if isinstance(x, ast.Name) and isinstance(x.ctx, ast.Load) and x.id not in self.cal.params and x.id != self.sn:
+                    for node_d, kind, a in reaching_events(self.g, x.id, at):
+                        if kind == "assign" and getattr(a, "value", None) is not None and id(a) not in seen:
+                            seen.add(id(a))
+                            visit(a.value, node_d)  # type: ignore[union-attr]
+        for n in self.g.nodes_of(stmt):
+            visit(e, n)
+        return out
+
+    def label_parts(self, chunk: ast.expr, stmt: ast.stmt) -> list[tuple[ast.expr, ast.expr]]:
+        """(label, multiplicity) readings of a label chunk `[LAB] * M` / `M * [LAB]` / `np.full(M, LAB)` / `np.repeat(LAB, M)`, through locals."""
+        out = []
+        cands = [chunk]
+        if isinstance(chunk, ast.Name):
+            for node_d, kind, a in [ev for n in self.g.nodes_of(stmt) for ev in reaching_events(self.g, chunk.id, n)]:
+                if kind == "assign" and getattr(a, "value", None) is not None:
+                    cands.append(a.value)  # type: ignore[union-attr]
+        for c in cands:
+            if isinstance(c, ast.BinOp) and isinstance(c.op, ast.Mult):
+                for a, b in ((c.left, c.right), (c.right, c.left)):
+                    if isinstance(a, (ast.List, ast.Tuple)) and len(a.elts) == 1:
+                        out.append((a.elts[0], b))
+            elif isinstance(c, ast.Call) and (dotted(c.func) or "").split(".")[-1] == "full" and len(c.args) >= 2:
+                out.append((c.args[1], c.args[0]))
+            elif isinstance(c, ast.Call) and (dotted(c.func) or "").split(".")[-1] == "repeat" and len(c.args) >= 2:
+                out.append((c.args[0], c.args[1]))
         return out
